@@ -19,7 +19,7 @@ BUILTINS = {"len", "int", "float", "abs", "min", "max", "range", "sorted", "all"
             "print", "bool", "zip", "enumerate", "round"}
 SPEC_BUILTINS = {"forall", "forall2", "exists", "implies", "iff", "ite", "old", "seq_eq", "is_none", "opt_val",
                  "sqrt", "Sum", "row", "real", "floor", "is_perm_rows", "count_true", "uf", "ufa", "min2", "max2",
-                 "absr", "lo_of", "sq", "trunc"}
+                 "absr", "lo_of", "sq", "trunc", "SumRange"}
 
 _ufs = {}
 
@@ -325,6 +325,8 @@ def call_method(ev, bm, node, st):
         if ev.spec:
             raise Unsupported("mutation inside a specification")
         ex = core.Exec(ev.ctx, ev.module, {}, {})
+        if isinstance(recv, Seq):
+            ex.frame(recv, st, node)
         ex.assign(bm.recv_node, newv, st, node)
 
     if isinstance(recv, Seq):
@@ -486,7 +488,7 @@ def lib_minmax(ev, args, kw, st, node):
 def lib_array(ev, args, kw, st, node):
     v = args[0]
     if isinstance(v, Seq):
-        return Seq(v.n, v.off, v.arrs, v.esh, "array")
+        return Seq(v.n, v.off, v.arrs, v.esh, "array")     # np.array copies: no root
     if isinstance(v, Tup):
         if not v.items:
             raise Unsupported("np.array([]) of unknown element type")
@@ -859,6 +861,15 @@ def sp_sum(ev, node, st):
     s2.env[names[0]] = Num(k)
     t = as_num(ev.ev(body, s2)).t
     return Num(sum_term(z3.Lambda([k], t), lo, hi))
+
+
+@spec("SumRange")
+def sp_sumrange(ev, node, st):
+    """SumRange(seq, lo, hi) = seq[lo] + ... + seq[hi-1]"""
+    v = ev.ev(node.args[0], st)
+    lo = as_num(ev.ev(node.args[1], st)).t
+    hi = as_num(ev.ev(node.args[2], st)).t
+    return Num(sum_term(v.arrs[0], z3.simplify(v.off + lo), z3.simplify(v.off + hi)))
 
 
 @spec("uf")
